@@ -22,6 +22,7 @@ def outs_ok_prefix(xs, n, i, mm):
 class txin_is_coinbase:
     props = ["C20"]
     sig = dict(self=TXIN)
+    returns = Bool()
 
     def ensures_null(self, result):
         return result == is_null_outpoint(self)
@@ -33,6 +34,7 @@ class txin_is_coinbase:
 class tx_is_coinbase:
     props = ["C20"]
     sig = dict(self=TX)
+    returns = Bool()
     inline = True
 
     def ensures_cb(self, result):
@@ -105,18 +107,93 @@ class check_size_limit:
     canaries = [("size > self.MAX_TX_SIZE", "size >= self.MAX_TX_SIZE")]
 
 
+# ---------------------------------------------------------------- _check_txs_in: duplicate outpoints, null prevouts, coinbase script
+XS = SeqOf(TXIN)
+
+
+@lemma(sig=dict(xs=XS, i=Int(0), h=Bytes(), n=Int()), induct=lambda xs, i, h, n: i, props=["C20"])
+def among_iff_contains(xs, i, h, n):
+    """(h, n) is the outpoint of one of the first i inputs iff it occurs in their outpoint list"""
+    if i > 0:
+        among_iff_contains(xs, i - 1, h, n)
+    return outpoint_among(xs, i, h, n) == ((h, n) in outpoints_upto(xs, i))
+
+
+@lemma(sig=dict(xs=XS, i=Int(0), n=Int(0)), induct=lambda xs, i, n: n, props=["C20"])
+def dup_mono(xs, i, n):
+    if i < n:
+        dup_mono(xs, i, n - 1)
+    return implies(i <= n and has_duplicate_outpoint(xs, i), has_duplicate_outpoint(xs, n))
+
+
+@lemma(sig=dict(xs=XS, i=Int(0), n=Int(0)), induct=lambda xs, i, n: n, props=["C20"])
+def null_mono(xs, i, n):
+    if i < n:
+        null_mono(xs, i, n - 1)
+    return implies(i <= n and has_null_outpoint(xs, i), has_null_outpoint(xs, n))
+
+
+@lemma(sig=dict(xs=XS, m=Int(0), i=Int(0)), induct=lambda xs, m, i: m, props=["C20"])
+def among_self(xs, m, i):
+    """the outpoint of input i is among the outpoints of the first m inputs, for i < m"""
+    if i < m - 1:
+        among_self(xs, m - 1, i)
+    return implies(0 <= i and i < m and m <= len(xs), outpoint_among(xs, m, xs[i].previous_hash, xs[i].previous_index))
+
+
+@lemma(sig=dict(xs=XS, m=Int(0), x=TXIN), induct=lambda xs, m, x: m, props=["C20"])
+def count_among(xs, m, x):
+    """an input equal to x among the first m gives x's outpoint among their outpoints"""
+    if m > 0:
+        count_among(xs, m - 1, x)
+    return implies(m <= len(xs) and seq_count_TxIn(xs, m, x) >= 1, outpoint_among(xs, m, x.previous_hash, x.previous_index))
+
+
+@lemma(sig=dict(xs=XS, n=Int(0), i=Int(0)), induct=lambda xs, n, i: n, props=["C20"])
+def count_dup(xs, n, i):
+    """an input that occurs twice (as a value) among the first n makes a duplicate outpoint"""
+    if i < n - 1:
+        count_dup(xs, n - 1, i)
+        among_self(xs, n - 1, i)
+    if i == n - 1:
+        count_among(xs, n - 1, xs[i])
+    return implies(0 <= i and i < n and n <= len(xs) and seq_count_TxIn(xs, n, xs[i]) > 1, has_duplicate_outpoint(xs, n))
+
+
 @contract(T + "_check_txs_in")
 class check_txs_in:
+    """raises exactly when CheckTransaction's input rules reject.  list.count on TxIn objects (identity) is bounded above
+    by the count of value-equal inputs; the set of seen outpoints is modelled by the sequence of its members."""
     props = ["C20"]
-    verify = False
-    assumed_reason = ("list comprehension with list.count (object identity) and a set of (hash, index) pairs over a collection of symbolic "
-                      "length are outside the engine fragment; decided bounded by C20's Tier-B harness")
     sig = dict(self=TX)
+
+    def requires(self):
+        return len(self.txs_in) >= 1
 
     def _bad(self):
         return txs_in_bad(self.txs_in)
 
     raises = [(ValidationFailureError, _bad, True)]
+    canaries = [("if pair in refs:", "if False:"), ("if tx_in.is_coinbase():", "if False:"), ("2 <= len(self.txs_in[0].script) <= 100", "2 <= len(self.txs_in[0].script) <= 101")]
+
+
+@invariant(T + "_check_txs_in", 'comp0', modifies=['_r'], kinds={'_r': K_TXINS})
+def _dup_objects_inv(self, _r, _i):
+    xs = self.txs_in
+    if _i > 0:
+        count_dup(xs, len(xs), _i - 1)
+    return implies(len(listval(_r)) > 0, has_duplicate_outpoint(xs, len(xs)))
+
+
+@invariant(T + "_check_txs_in", 0, modifies=['refs'], kinds={'refs': K_PAIRS})
+def _refs_inv(self, refs, _i):
+    xs = self.txs_in
+    n = len(xs)
+    if _i < n:
+        among_iff_contains(xs, _i, xs[_i].previous_hash, xs[_i].previous_index)
+        dup_mono(xs, _i + 1, n)
+        null_mono(xs, _i + 1, n)
+    return (setseq(refs, K_PAIRS) == outpoints_upto(xs, _i), not has_duplicate_outpoint(xs, _i), not has_null_outpoint(xs, _i))
 
 
 @contract(T + "check")
